@@ -310,6 +310,16 @@ def run_replay_file(mod, path, known):
     return "ok", "", None
 
 
+def _replay_all(q, jobs):
+    outs = []
+    for j in jobs:
+        try:
+            outs.append(_replay_entry(j))
+        except BaseException:  # noqa: BLE001
+            outs.append(("error", traceback.format_exc(), None))
+    q.put(outs)
+
+
 def _replay_entry(args):
     modname, path, known = args
     mod = importlib.import_module(modname)
@@ -383,8 +393,13 @@ def main(argv=None):
         # (e.g. dask's default thread pool) until the worker pool has forked.
         outs = []
         if files:
-            with mp.get_context("fork").Pool(1) as rp:
-                outs = rp.map(_replay_entry, [(modname, f, known) for f in files], chunksize=1)
+            # (a plain non-daemonic process, not a Pool worker: replays of process-pool sub-checks start children)
+            ctx_r = mp.get_context("fork")
+            rq = ctx_r.SimpleQueue()
+            proc = ctx_r.Process(target=_replay_all, args=(rq, [(modname, f, known) for f in files]), daemon=False)
+            proc.start()
+            outs = rq.get()
+            proc.join()
         for p, (st, detail, k) in zip(files, outs):
             fn = os.path.basename(p)
             replayed += 1
